@@ -761,25 +761,91 @@ func checkNetworkControl(c *fw.Ctx) {
 			c.Undecided(rule, "inRange", err.Error())
 			return
 		}
+		opaqueTerm := func(term fw.Term) string {
+			for _, l := range term {
+				if strings.Contains(l.Atom, "closure:") || strings.Contains(l.Atom, "dyn(") || strings.Contains(l.Atom, "func:") || fw.AtomCallsUnexportedHelper(l.Atom) || strings.Contains(l.Atom, "*&-") {
+					return l.Atom
+				}
+			}
+			return ""
+		}
+		checkTrueRow := func(f *ssa.Function, r fw.Row) {
+			for _, term := range r.Cond {
+				ok := termHas(term, lit{[]string{"(*net.IPNet).Contains(net.ParseCIDR(", "#1,"}, true})
+				construct := "membership in a range is decided by net.IPNet.Contains on the parsed CIDR"
+				switch {
+				case ok:
+					c.Ok(rule, construct, c.P.Pos(fw.InstrPos(r.Ret)), "")
+				case opaqueTerm(term) != "":
+					c.Undecided(rule, construct, "true is returned under "+opaqueTerm(term)+", which the rule cannot see into")
+				default:
+					c.Fail(rule, construct, c.P.Pos(fw.InstrPos(r.Ret)), "true is returned without (*net.IPNet).Contains(parsed CIDR, ip): "+fw.DNF{term}.String()+" (other containment predicates treat IPv4-mapped IPv6 ranges differently)")
+				}
+			}
+		}
 		for _, r := range tbl.Rows {
 			switch r.Outcome {
 			case "value:true":
-				for _, term := range r.Cond {
-					ok := termHas(term, lit{[]string{"(*net.IPNet).Contains(net.ParseCIDR(", "#1,param:ip)"}, true})
-					c.Check(ok, rule, "membership in a range is decided by net.IPNet.Contains on the parsed CIDR", c.P.Pos(fw.InstrPos(r.Ret)), "", "true is returned without (*net.IPNet).Contains(parsed CIDR, ip): "+fw.DNF{term}.String()+" (other containment predicates treat IPv4-mapped IPv6 ranges differently)")
-				}
+				checkTrueRow(fn, r)
 			case "value:false":
 				for _, term := range r.Cond {
-					exhausted := false
+					exhausted, midLoop := false, false
 					for _, l := range term {
-						if !l.Pos && strings.Contains(l.Atom, "< builtin.len(param:CIDRs)") {
-							exhausted = true
+						if strings.Contains(l.Atom, "< builtin.len(param:CIDRs)") {
+							if l.Pos {
+								midLoop = true
+							} else {
+								exhausted = true
+							}
 						}
 					}
-					c.Check(exhausted, rule, "a range list is rejected only after every entry was examined", c.P.Pos(fw.InstrPos(r.Ret)), "", "false is returned before the list is exhausted ("+fw.DNF{term}.String()+"): entries after an unparsable or non-matching one are ignored")
+					construct := "a range list is rejected only after every entry was examined"
+					switch {
+					case exhausted:
+						c.Ok(rule, construct, c.P.Pos(fw.InstrPos(r.Ret)), "")
+					case midLoop:
+						// positive evidence: the verdict is given while entries remain
+						c.Fail(rule, construct, c.P.Pos(fw.InstrPos(r.Ret)), "false is returned before the list is exhausted ("+fw.DNF{term}.String()+"): entries after an unparsable or non-matching one are ignored")
+					default:
+						c.Undecided(rule, construct, "false is returned under "+fw.DNF{term}.String()+": the traversal is not an index loop over the list")
+					}
+				}
+			case "call:slices.ContainsFunc":
+				// the library routine examines every entry until the predicate holds: the predicate
+				// is the function literal handed to it
+				call, _ := r.Call.(*ssa.Call)
+				decided := false
+				if call != nil && len(call.Call.Args) == 2 && fw.Sig(call.Call.Args[0]) == "param:CIDRs" {
+					var pred *ssa.Function
+					switch x := call.Call.Args[1].(type) {
+					case *ssa.MakeClosure:
+						pred, _ = x.Fn.(*ssa.Function)
+					case *ssa.Function:
+						pred = x
+					}
+					if pred != nil {
+						if pt, err := fw.ExtractTable(pred, 0); err == nil {
+							decided = true
+							c.Ok(rule, "a range list is rejected only after every entry was examined", c.P.Pos(call.Pos()), "slices.ContainsFunc over the whole list")
+							for _, pr := range pt.Rows {
+								switch {
+								case pr.Outcome == "value:true":
+									checkTrueRow(pred, pr)
+								case pr.Outcome == "value:false":
+								case strings.HasPrefix(pr.Outcome, "call:(*net.IPNet).Contains"):
+									c.Ok(rule, "membership in a range is decided by net.IPNet.Contains on the parsed CIDR", c.P.Pos(fw.InstrPos(pr.Ret)), "")
+								default:
+									c.Undecided(rule, "membership in a range is decided by net.IPNet.Contains on the parsed CIDR", "the predicate returns "+pr.Outcome)
+								}
+							}
+						}
+					}
+				}
+				if !decided {
+					c.Undecided(rule, "inRange returns a verdict the rule can read", "returns "+r.Outcome)
 				}
 			default:
-				c.Fail(rule, "inRange returns a constant verdict", c.P.Pos(fw.InstrPos(r.Ret)), "returns "+r.Outcome)
+				c.Undecided(rule, "inRange returns a verdict the rule can read", "returns "+r.Outcome)
 			}
 		}
 		c.Min(rule+" inRange rows", len(tbl.Rows), 2)
